@@ -18,7 +18,7 @@ def accStr (p : Pos) : String :=
     | [] => "."
     | t :: _ => if t.kind == .standing then "s" else "r")
   let d := p.winDetails
-  s!"sz={p.cfg.size} tm={colorStr p.toMove} mn={p.move} ws={p.whiteStones.toNat} bs={p.blackStones.toNat} tops={",".intercalate tops} road={"".intercalate road} wg={sortedNats (p.wgroups.map (·.toNat))} bg={sortedNats (p.bgroups.map (·.toNat))} over={if d.over then 1 else 0}{colorStr d.winner}"
+  s!"sz={p.cfg.size} tm={colorStr p.toMove} mn={p.move} ws={p.whiteStones.toNat} bs={p.blackStones.toNat} tops={",".intercalate tops} road={"".intercalate road} wg={sortedNats (p.wgroups.map (·.toNat))} bg={sortedNats (p.bgroups.map (·.toNat))} over={if d.over then 1 else 0}{colorStr d.winner} own=ok"
 
 def handleApi : Handler := fun st op args =>
   match op, args with
